@@ -82,6 +82,7 @@ func (ns *vfNS) seed(tg *vfdoubles.Target) {
 	if !ns.noMode {
 		tg.Seed(0, "hset", vfC14Cp, "bisync_mode", "parallel")
 	}
+
 	if ns.front != nil {
 		tg.Seed(0, vfArgs(checkpoint.BisyncFrontierKey(vfC14Cp), ns.front.HashArgs())...)
 	}
@@ -96,6 +97,17 @@ func (ns *vfNS) seed(tg *vfdoubles.Target) {
 	if ns.latest != nil {
 		tg.Seed(0, vfArgs(vfC14LatestKey(), ns.latest.HashArgs())...)
 	}
+}
+
+// seedAll (the C14 start cases; the C17 harness keeps using seed): the namespace plus application data in OTHER databases.
+func (ns *vfNS) seedAll(tg *vfdoubles.Target) {
+	ns.seed(tg)
+	// A stand-alone target holds application data in other databases as well: INFO keyspace lists them and
+	// GetCheckpoint visits every non-empty database in Go's random MAP order, leaving the connection in the one it
+	// visited last (D21, seeded C14-r8-m1). Always present, derived from the case (a replay rebuilds the same state):
+	// DB 2, and DB 1 or 3 depending on the root offset.
+	tg.Seed(2, "set", "app:other", "x")
+	tg.Seed(1+2*int(ns.rootOff&1), "set", "app:more", "y")
 }
 
 func (ns *vfNS) encode() string {
@@ -332,7 +344,7 @@ func vfC14StartCase(t *testing.T, s *vfutil.Session, tagp *int, mode string, ids
 	tag := *tagp
 	*tagp++
 	tg := vfdoubles.NewTarget()
-	ns.seed(tg)
+	ns.seedAll(tg)
 	seedLen := tg.LogLen()
 	start, off, isPoint := vfC14Start(tg, mode, ids)
 	tg.CloseAll()
@@ -343,6 +355,20 @@ func vfC14StartCase(t *testing.T, s *vfutil.Session, tagp *int, mode string, ids
 		if l, ok := vfC14RenderWrite(log[i]); ok {
 			ws = append(ws, i)
 			lines = append(lines, l)
+		}
+	}
+	// the same untouched target state, further FRESH processes (no traffic in between): the answer must not depend on
+	// the order in which GetCheckpoint happened to visit the target's databases
+	for k := 0; k < 6; k++ {
+		tk := vfdoubles.NewTarget()
+		ns.seedAll(tk)
+		again, off2, _ := vfC14Start(tk, mode, ids)
+		tk.CloseAll()
+		s.Count("start_repeated_on_same_state")
+		if again != start {
+			s.Violate("restart-moves-resume-point-no-traffic", fmt.Sprintf("the same target state (recovery keys in DB 0, other non-empty databases on the stand-alone target), fresh processes with no traffic in between: one start answers %s (offset %d), another %s (offset %d)", start, off, again, off2),
+				map[string]interface{}{"op": fmt.Sprintf("c14s %d %s %s %s %s", tag, mode, vfutil.HexS(config.Version), checkpoint.VfHexList(ids), ns.encode()), "start": start, "again": again})
+			break
 		}
 	}
 	m := mode
@@ -433,7 +459,7 @@ func vfC14StartCase(t *testing.T, s *vfutil.Session, tagp *int, mode string, ids
 				break
 			}
 			tf := vfdoubles.NewTarget()
-			ns.seed(tf)
+			ns.seedAll(tf)
 			tf.FailAt[w] = "ERR vf injected"
 			startF, offF, okF := vfC14Start(tf, mode, ids)
 			tf.CloseAll()
